@@ -91,16 +91,21 @@ def algebra_jobs(rng, n):
         m = imat(rng)
         det = m[0] * m[3] - m[1] * m[2]
         # the same integer matrix at several magnitudes (m / k): non-degenerate however small
-        k = rng.choice([1, 1, 10, 1000, 100000])
+        k = rng.choice([1, 1, 10, 1000, 100000, 10 ** 8, 10 ** 9, 10 ** 12])
         inv = Affine2D(*[v / k for v in m]).inverse()
         # exact inverse = (k adj(A) / det, -adj(A) T / det): inverse x |det| is integral
         r = None
+        big = k > 100000
         if det:
             sc = [v * abs(det) for v in inv]
+            if big:
+                # determinants down to 1e-24: hand the spec the linear part divided by k (it then is the
+                # inverse of the integer matrix itself; the translation part does not depend on k)
+                sc = [v / k for v in sc[:4]] + sc[4:]
             r = [int(round(v)) for v in sc]
             if any(abs(v - w) > 1e-6 * max(1.0, abs(w)) for v, w in zip(sc, r)):
                 r = None
-        recs.append({"kind": "inv", "m": m + [k], "det": det, "r": r if r else [0] * 6})
+        recs.append({"kind": "inv", "m": m + [1 if big else k], "det": det, "r": r if r else [0] * 6})
     return recs
 
 
